@@ -260,6 +260,10 @@ class Model:
                 "functools", update_wrapper=lambda w, f, *a, **k: w,
                 wraps=lambda f: (lambda w: w)),
             "gc": L.namespace("gc", collect=lambda *a: 0),
+            "collections": L.namespace(
+                "collections", deque=__import__("collections").deque,
+                OrderedDict=dict),
+            "deque": __import__("collections").deque,
             "hashlib": L.namespace("hashlib", md5=MD5, sha1=MD5,
                                    sha256=MD5),
             "np": L.namespace(
@@ -291,8 +295,9 @@ class Model:
         """(cache dict, key list) of the class, for the bound check"""
         c = L.run(lambda: L.lookup_attr(self.it, self.cls, "_cache", None))
         k = L.run(lambda: L.lookup_attr(self.it, self.cls, "_keys", None))
+        import collections
         if c[0] != "ok" or k[0] != "ok" or not isinstance(c[1], dict) \
-                or not isinstance(k[1], list):
+                or not isinstance(k[1], (list, collections.deque)):
             raise AnalysisError("Cache._cache / Cache._keys not found as "
                                 "dict / list in the model")
         return c[1], k[1]
